@@ -1454,13 +1454,6 @@ func contract_NewGraph(metaData *MetaData, build *BuildDirective, varPool *VarPo
 	return
 }
 
-//kvc:contract (*Graph).Build
-func contract_Graph_Build(g *Graph, metaData *MetaData, varPool *VarPool) (result *Injector, err error) {
-	vs.ModifiesAll()
-	vs.Allocates()
-	return
-}
-
 //kvc:ghost CreateInjector after "graph, err := NewGraph(metaData, build, varPool)"
 func ghostRefusedGraph(err error) {
 	if err != nil {
@@ -1489,14 +1482,6 @@ func contract_CreateInjector(metaData *MetaData, build *BuildDirective, varPool 
 func inv_CreateInjector_log() {
 }
 
-//kvc:contract (*Parser).ParseFile
-func contract_Parser_ParseFile(p *Parser, filename string, varPool *VarPool) (metaData *MetaData, builds []*BuildDirective, err error) {
-	vs.Ensures("builds_nonnil", vs.Forall(len(builds), func(i int) bool { return builds[i] != nil }))
-	vs.ModifiesAll()
-	vs.Allocates()
-	return
-}
-
 //kvc:contract Generate
 func contract_Generate(w io.Writer, filename string, metaData *MetaData, injectors []*Injector, varPool *VarPool) (err error) {
 	vs.ModifiesAll()
@@ -1504,9 +1489,28 @@ func contract_Generate(w io.Writer, filename string, metaData *MetaData, injecto
 	return
 }
 
+// A processor owns one parser and one name pool for its whole life.
+//
+//kvc:final Processor.parser Processor.varPool
+func processorWF(p *Processor) bool { return p != nil && p.parser != nil && p.varPool != nil }
+
+//kvc:contract NewParser
+func contract_NewParser() (result *Parser) {
+	vs.Ensures("nonnil", result != nil)
+	vs.Allocates()
+	return
+}
+
+//kvc:contract NewProcessor
+func contract_NewProcessor() (result *Processor) {
+	vs.Ensures("wf", processorWF(result))
+	vs.Allocates()
+	return
+}
+
 //kvc:contract (*Processor).processFile
 func contract_Processor_processFile(p *Processor, filename string) (result error) {
-	vs.Requires(p != nil)
+	vs.Requires(processorWF(p))
 	// if any declaration of the file is refused, no output file is created (or truncated) and an error is returned
 	vs.Ensures("no_output_when_a_declaration_is_refused", vs.Implies(gRefused > vs.Old(gRefused), gCreated == vs.Old(gCreated) && result != nil))
 	vs.Ensures("at_most_one_output_file", gCreated <= vs.Old(gCreated)+1)
@@ -1523,7 +1527,7 @@ func inv_processFile(kvcIdx int) {
 
 //kvc:contract (*Processor).ProcessFiles
 func contract_Processor_ProcessFiles(p *Processor, files []string) (result error) {
-	vs.Requires(p != nil)
+	vs.Requires(processorWF(p))
 	// the run fails as soon as a declaration is refused: the error reaches the caller (and main exits non-zero)
 	vs.Ensures("refusal_fails_the_run", vs.Implies(gRefused > vs.Old(gRefused), result != nil))
 	vs.ModifiesAll()
@@ -1534,7 +1538,7 @@ func contract_Processor_ProcessFiles(p *Processor, files []string) (result error
 //kvc:loop (*Processor).ProcessFiles "for _, filename := range files"
 func inv_ProcessFiles(p *Processor) {
 	vs.Invariant("nothing_refused_so_far", gRefused == vs.Old(gRefused))
-	vs.Invariant("processor_intact", p != nil)
+	vs.Invariant("processor_intact", processorWF(p))
 }
 
 // ---------------------------------------------------------------------------
